@@ -72,6 +72,15 @@ var props = []*propSpec{
 }
 
 func init() {
+	props = append(props, &propSpec{ID: "C10", Level: "exploration", Clauses: []string{"C10."},
+		Scens:  []scenSpec{{Name: "fmb", Weight: 3}, {Name: "backend", Weight: 1}, {Name: "read", Weight: 1}},
+		QuickS: 40, ThorS: 600, Rule: ruleCommon})
+	props = append(props, &propSpec{ID: "C15", Level: "exploration", Clauses: []string{"C15."},
+		Scens:  []scenSpec{{Name: "ns", Weight: 1}, {Name: "ac", Weight: 1}},
+		QuickS: 40, ThorS: 600, Rule: ruleCommon})
+	props = append(props, &propSpec{ID: "C16", Level: "exploration", Clauses: []string{"C16."},
+		Scens:  []scenSpec{{Name: "bswrite", Weight: 1}},
+		QuickS: 40, ThorS: 600, Rule: ruleCommon})
 	props = append(props, &propSpec{ID: "C06", Level: "exploration", Clauses: []string{"C06."},
 		Scens:  []scenSpec{{Name: "ac", Weight: 1}},
 		QuickS: 40, ThorS: 600, Rule: ruleCommon})
